@@ -236,7 +236,8 @@ PROPS["C15"]["verus"]["rows"] = ["Table::read_rows"]
 OPENCAT_BLOCKS = ["Package::vx_open_tables_row", "Package::vx_open_columns_row_name", "Package::vx_open_columns_row_cells", "Package::vx_open_validation_row",
                   "Package::vx_open_nullable_cell", "Package::vx_open_range_cells", "Package::vx_open_key_cells"]
 PROPS["C09"]["verus"]["opencat"] = OPENCAT_BLOCKS + ["catalog_str", "catalog_int", "Value::as_str", "Value::as_int", "Value::is_null"]
-PROPS["C09"]["probes"] = dict({b: ["catalognull"] for b in OPENCAT_BLOCKS}, **{"StringPoolBuilder::build_from_data": ["zerorc"], "StringPool::decref": ["dangling"], "ValueRef::remove": ["dangling"]})
+PROPS["C09"]["verus"]["joincond"] = ["Join::vx_join_inner_row", "Value::to_bool"]
+PROPS["C09"]["probes"] = dict({b: ["catalognull"] for b in OPENCAT_BLOCKS}, **{"Join::vx_join_inner_row": ["joincol"], "StringPoolBuilder::build_from_data": ["zerorc"], "StringPool::decref": ["dangling"], "ValueRef::remove": ["dangling"]})
 PROPS["C08"]["probes"] = {"StringPool::decref": ["dangling"], "ValueRef::remove": ["dangling"]}
 PROPS["C02"]["probes"] = {"StringPoolBuilder::build_from_data": ["zerorc"]}
 PROPS["C06"]["probes"] = {"Package::create_table_with_name": ["enumsemi"]}
